@@ -429,3 +429,30 @@ Print Assumptions C20_normalise_unit.
 Example C20_normalise_nonvacuous : tmin RR [2; 5; 3] < tmax RR [2; 5; 3].
 Proof. exact normalise_example. Qed.
 Print Assumptions C20_normalise_nonvacuous.
+
+(* ================================================================== *)
+(* pareto_front on the REGENERATED program (MiniC translation of      *)
+(* src/hydrodiy/stat/c_paretofront.c, Gen/KernelsAst.v).              *)
+(* ================================================================== *)
+From Coq Require Import String Lia PrimFloat.
+From Hy Require Import Base.Num Base.MiniC Gen.KernelsAst Gen.Consts Model.Summary.
+From Hy Require Proofs.RefinePareto.
+Import ListNotations.
+Open Scope string_scope.
+Open Scope list_scope.
+Open Scope Z_scope.
+
+(* c_paretofront = the model [paretofront]: any arithmetic with (double)0 = 0, any number of points and columns (0 included), NaN and infinite coordinates, any orientation code, any initial content of the output; the data come as the row-major flattened array *)
+Theorem C20_kernel_paretofront_refines_model :
+  forall (T : Type) (N : NumOps T) (X : NumLit T) (orientation : Z) 
+         (data : list (list T)) (ncol : nat) (junk : list Z) (n : nat),
+       nofZ N 0 = n0 N ->
+       Forall (fun r : list T => Datatypes.length r = ncol) data ->
+       Datatypes.length junk = Datatypes.length data ->
+       (Nat.max (Datatypes.length data) ncol < n)%nat ->
+       exec_fun N X program (S n) "c_paretofront"
+         [AVI (Z.of_nat (Datatypes.length data)); AVI (Z.of_nat ncol); 
+          AVI orientation; AVArrF (List.concat data); AVArrI junk] =
+       Ok (RI 0, [VArrF (List.concat data); VArrI (paretofront N orientation data)]).
+Proof. exact @RefinePareto.refine_paretofront. Qed.
+Print Assumptions C20_kernel_paretofront_refines_model.
